@@ -56,6 +56,10 @@ def patterns(nbits):
             out.append(("burst1", ones))
             if ln > 2:
                 out.append(("burstE", ends))
+    # damage of the trailer whose SYNDROME is a special value (all ones, one bit, ...): any pattern
+    # confined to the 24 trailer bits is a burst of span <= 24
+    for syn in (0xFFFFFF, 0x000001, 0x800000, 0x7FFFFF, 0xFFFFFE, 0x864CFB, 0xD30000, 0x0D0A00):
+        out.append(("syn", int.from_bytes(pinned.solve3(syn), "big")))
     seen, uniq = set(), []
     for kind, mask in out:
         if mask not in seen:
@@ -247,7 +251,7 @@ def cases(tier):
         for i in range(k):
             nb = (len(frames[i]) - 3) * 8
             for kind, mask in patterns(nb):
-                if kind != "bit":
+                if kind not in ("bit", "syn"):
                     continue
                 for skind in ("buffered-raw", "plain", "bytearray", "socket"):
                     for q, h in modes[:4]:
